@@ -394,7 +394,7 @@ var libInputs = []any{
 // hand-written schemas over the package-level unit definitions, struct-mapped objects with sub-object
 // defaults, references, typed objects, one-of, int enums with units
 func wlLibrary(g *hx.Gen, k int) workload {
-	variant := g.R.Intn(7)
+	variant := g.R.Intn(9)
 	idx := make([]int, k)
 	ops := make([]string, k)
 	for i := range idx {
@@ -443,6 +443,40 @@ func wlLibrary(g *hx.Gen, k int) workload {
 			}
 			s = schema.NewStructMappedObjectSchema[libTop]("top", libTopProps(def))
 			inputs = libTopInputs
+		case 7, 8: // a typed object (embeds ObjectSchema by value; its typed methods have value receivers)
+			to := schema.NewTypedObject[libInner]("inner", libInnerProps())
+			ins := []any{map[string]any{}, map[string]any{"a": "2kB"}, map[string]any{"b": "q"}, map[string]any{"a": 1, "b": "z"}, map[string]any{"zz": 1}, "scalar"}
+			var ts []thunk
+			for i := range idx {
+				in := ins[idx[i]%len(ins)]
+				switch i % 4 {
+				case 0:
+					ts = append(ts, thunk{"UT", func() string {
+						return guard(func() string {
+							v, err := to.UnserializeType(deepCopy(in))
+							if err != nil {
+								return "err:" + class(err)
+							}
+							if err := to.ValidateType(v); err != nil {
+								return "err-validate:" + class(err)
+							}
+							w, err := to.SerializeType(v)
+							if err != nil {
+								return "err-serialize:" + class(err)
+							}
+							return "ok:" + canonOut(w)
+						})
+					}})
+				case 1:
+					ts = append(ts, thunk{"Any", func() string {
+						return guard(func() string { return runOp(to.Any(), "U", deepCopy(in)) })
+					}})
+				default:
+					op := ops[i]
+					ts = append(ts, thunk{op, func() string { return runOp(to, op, deepCopy(in)) }})
+				}
+			}
+			return ts, nil
 		default: // enum and map keyed by units
 			s = schema.NewMapSchema(
 				schema.NewIntEnumSchema(map[int64]*schema.DisplayValue{1024: nil, 1048576: nil}, schema.UnitBytes),
